@@ -132,6 +132,9 @@ type WalletState struct {
 	Issued   []IssuedAddr
 	Removing bool // removal requested and accepted
 	Imported bool // restored from mnemonic / keystore (addresses learnt from the API)
+	// Uncertain: an operation on this wallet was in flight when the process
+	// crashed, so the harness does not know whether it took effect.
+	Uncertain bool
 }
 
 type IssuedAddr struct {
@@ -179,6 +182,7 @@ type World struct {
 	Gen       *Gen
 
 	Violations []Violation
+	Removed    []*WalletState // wallets whose removal completed (candidates for re-import)
 	Stats      map[string]int
 	Log        []string
 	LogOn      bool
